@@ -379,6 +379,17 @@ theorem print_line_keep (w : Nat) (hw : 1 ≤ w) (es : List (Str × Str)) (hs : 
     | nil => exact absurd rfl h1
     | cons a t => simpa using h4
 
+/-- every printed line is a fixed point of `strip` (what the repaired `read` applies first) -/
+theorem print_line_strip (w : Nat) (hw : 1 ≤ w) (es : List (Str × Str)) (hs : ∀ e ∈ es, SeqOk e.2) :
+    ∀ l ∈ fastaPrint w es, strip l = l := by
+  intro l hl
+  rcases print_line_cases w es l hl with ⟨e, _, rfl⟩ | ⟨e, he, hc⟩
+  · rw [strip_cons_gt]
+    congr 1
+    unfold normHeader strip
+    exact rstrip_idem _
+  · exact (chunk_props w hw e.2 (hs e he) l hc).2.1
+
 theorem print_keys (w : Nat) (es : List (Str × Str)) (i : Nat) :
     (indexGroups i (printGroups w es)).map (·.1) = es.map (fun e => normHeader e.1) := by
   rw [indexGroups_keys, printGroups, List.map_map]
@@ -407,11 +418,17 @@ theorem fastaRead_print (w cpl : Nat) (hw : 1 ≤ w) (es : List (Str × Str)) (h
     cases es with
     | nil => exact absurd rfl hne
     | cons e t => obtain ⟨h, s⟩ := e; simp [fastaPrint, fastaNewLines]
-  have hfilt : (fastaPrint w es).filter (fun l => !(strip l).isEmpty && l.head? != some ';')
+  have hmap : (fastaPrint w es).map strip = fastaPrint w es := by
+    conv => rhs; rw [← List.map_id (fastaPrint w es)]
+    exact List.map_congr_left (fun l hl => by simpa using print_line_strip w hw es hs l hl)
+  have hfilt : (fastaPrint w es).filter (fun l => !l.isEmpty && l.head? != some ';')
       = fastaPrint w es :=
-    List.filter_eq_self.mpr (fun l hl => (print_line_keep w hw es hs l hl).1)
+    List.filter_eq_self.mpr (fun l hl => by
+      have h1 := (print_line_keep w hw es hs l hl).1
+      rw [print_line_strip w hw es hs l hl] at h1
+      exact h1)
   unfold fastaRead textRoundTrip
-  simp only [hne', Bool.false_eq_true, if_false, hfilt]
+  simp only [hne', Bool.false_eq_true, if_false, hmap, hfilt]
   rw [fastaFind_print w hw es hs hnd]
 
 theorem fastaItems_print (w cpl : Nat) (hw : 1 ≤ w) (es : List (Str × Str))
